@@ -448,5 +448,7 @@ class MulticomponentThermodynamics (GeneralThermodynamics):
         precPhase = _getPrecipitatePhase(self.phases, precPhase)
         curv_results = self.curvatureFactor(x, T, precPhase, removeCache, searchDir)
         if curv_results is None:
-            return self._curvature_outputs[precPhase].beta
+            #Previous value if there is one, otherwise there is nothing to compute an impingement rate from
+            beta = self._curvature_outputs[precPhase].beta
+            return 0 if beta is None else beta
         return curv_results.beta
